@@ -240,6 +240,8 @@ class Walker:
         return states
 
     def ev(self, p: Path, kind, node, target=None, value=None, op=None):
+        if value is not None:
+            self._tag(value)
         p.events.append(Event(kind, node, target, value, op, p.loop, tuple(p.guards)))
 
     _ids = 0
@@ -247,12 +249,15 @@ class Walker:
     def _tag(self, value: ast.AST):
         """identity of one evaluation: copies made by substitution keep `_def_id`, so two
         uses of one variable are recognisably the same value, two textually equal calls are not"""
-        if value is not None and not hasattr(value, "_def_id") and isinstance(value, ast.AST):
-            Walker._ids += 1
-            try:
+        if value is not None and isinstance(value, ast.AST):
+            if not hasattr(value, "_def_id"):
+                Walker._ids += 1
                 value._def_id = Walker._ids
-            except Exception:
-                pass
+            # every call evaluated by this statement is one evaluation (two textually equal torch.rand(..) are two draws)
+            for n in ast.walk(value):
+                if isinstance(n, ast.Call) and not hasattr(n, "_def_id"):
+                    Walker._ids += 1
+                    n._def_id = Walker._ids
 
     def assign(self, p: Path, target: ast.AST, value: ast.AST, node):
         self._tag(value)
